@@ -8,7 +8,11 @@ CFG = {
         "Parsley.LoaderNoPanic.parseIndirect_inv", "Parsley.LoaderNoPanic.xrefLoop_ok", "Parsley.LoaderNoPanic.parseObjects_no_panic",
         "Parsley.C03.hybrid_hidden_gen0_witness",
         # follow-up C03b: end to end
-        "Parsley.C03.load_defines_exactly_classic", "Parsley.C03.load_never_panics", "Parsley.C03.exFile_wf",
+        "Parsley.C03.load_defines_exactly_classic", "Parsley.C03.load_defines_exactly_classic_fwd", "Parsley.C03.load_never_panics",
+        "Parsley.C03.exFile_wf", "Parsley.C03.exFileF_wf",
+        "Parsley.LoaderE2E.load_classic_core", "Parsley.LoaderE2E.load_classic_fwd", "Parsley.LoaderE2E.body_all",
+        "Parsley.LoaderTwoPass.load_two_pass", "Parsley.LoaderTwoPass.firstPass_two", "Parsley.LoaderTwoPass.secondPass_two",
+        "Parsley.LoaderTwoPass.twoObjs_loads",
         "Parsley.LoaderE2E.load_classic", "Parsley.LoaderE2E.reads_spelled", "Parsley.LoaderE2E.reads_stream_direct",
         "Parsley.LoaderE2E.reads_stream_ref", "Parsley.LoaderE2E.trailer_spelled", "Parsley.LoaderE2E.table_roundtrip_at",
         "Parsley.LoaderE2E.section_classic", "Parsley.LoaderE2E.xrefinfo_classic", "Parsley.LoaderE2E.reads_body",
@@ -32,10 +36,12 @@ CFG = {
             "their offsets, distinct identifiers and object numbers, /Root a reference, no /Prev, no /XRefStm, startxref = offset of the table; non-vacuity: "
             "exFile_wf (garbage + plain object + stream). The premise ReadsAt of the stage theorem is now DISCHARGED for every Spells spelling (reads_spelled) and "
             "for direct-/Length streams via C05's framing theorem (reads_stream_direct); streams with a referenced /Length read where the holder is bound and "
-            "give InsufficientContext where it is not (reads_stream_ref), and the two-pass stage theorem (LoaderTwoPass.load_two_pass, if listed above) covers the "
-            "second pass. EXCLUDED from the end-to-end theorem (still decided by the correspondence run against the oracle DocSpec.resolve and by kernel-evaluated "
-            "whole-model runs per layout): cross-reference STREAM layouts (/W, /Index, Flate + PNG-Up), object streams, hybrid files, and the composition of "
-            "the two-pass stage into load_classic (forward-referenced /Length); technical side conditions of the classic theorem: no byte 's' in the white "
+            "give InsufficientContext where it is not (reads_stream_ref); the two-pass stage theorem LoaderTwoPass.load_two_pass (first pass queues them, second "
+            "pass loads them) is composed into load_defines_exactly_classic_fwd = LoaderE2E.load_classic_fwd: the same end-to-end statement for files that also "
+            "contain streams whose /Length is a reference to an integer object written before OR AFTER the stream (ClassicFile.WFfwd; non-vacuity exFileF_wf: "
+            "holder after the stream). EXCLUDED from the end-to-end theorem (still decided by the correspondence run against the oracle DocSpec.resolve and by kernel-evaluated "
+            "whole-model runs per layout): cross-reference STREAM layouts (/W, /Index, Flate + PNG-Up), object streams, hybrid files, length holders that are "
+            "themselves not plain objects; technical side conditions of the classic theorem: no byte 's' in the white "
             "space / comments between `startxref` and its number, no further %%EOF after the last one. The link 'DocSpec.renderHistory with kind 0 produces a "
             "WF ClassicFile' is not proved in general (Spelling.spell -> Spells is C02's spell_is_Spells_partial); ClassicFile is the (more general) declarative layout.",
         "load_never_panics_partial":
